@@ -175,6 +175,12 @@ type CircOpts struct {
 	MaxGates         int
 	MaxOuts          int // number of declared outputs
 	MaxOutWidth      int
+	// OutTable, when set, lists the output widths to draw from instead of
+	// 1..MaxOutWidth.
+	OutTable []int
+	// ZeroWidthArgs allows width 0 for every argument (a party without
+	// input), one time in ZeroWidthArgs per argument.
+	ZeroWidthArgs int
 }
 
 var opProfiles = [][]int{
@@ -204,11 +210,22 @@ func DrawCirc(t *rapid.T, o CircOpts) Circ {
 		if i == 1 && o.MinWidth1 > lo {
 			lo = o.MinWidth1
 		}
-		c.In = append(c.In, rapid.IntRange(lo, o.MaxWidth).Draw(t, "inw"))
+		w := rapid.IntRange(lo, o.MaxWidth).Draw(t, "inw")
+		if o.ZeroWidthArgs > 0 && rapid.IntRange(1, o.ZeroWidthArgs).Draw(t, "zerowidth") == 1 {
+			w = 0
+		}
+		c.In = append(c.In, w)
+	}
+	if c.NumIn() == 0 {
+		c.In[0] = 1
 	}
 	nouts := rapid.IntRange(1, o.MaxOuts).Draw(t, "nouts")
 	for i := 0; i < nouts; i++ {
-		c.Out = append(c.Out, rapid.IntRange(1, o.MaxOutWidth).Draw(t, "outw"))
+		if len(o.OutTable) > 0 {
+			c.Out = append(c.Out, o.OutTable[rapid.IntRange(0, len(o.OutTable)-1).Draw(t, "outw")])
+		} else {
+			c.Out = append(c.Out, rapid.IntRange(1, o.MaxOutWidth).Draw(t, "outw"))
+		}
 	}
 	nin := c.NumIn()
 	nout := c.NumOut()
